@@ -222,9 +222,10 @@ Proof.
   destruct e; try (apply BE; reflexivity).
   - (* ESend *)
     destruct (NS ltac:(intros ? X; discriminate X)) as (s1 & o1 & ep & o2 & C & A & ->). cbn [core] in C.
-    destruct ((cnt <? 1) || (bytes <? 0)) eqn:G.
+    destruct ((cnt <? 1) || (bytes <? 0)) eqn:G; [|destruct (stopping_dec s) as [SG|SG]; rewrite SG in C].
     + inv C. simpl in A. inv A. simpl. split; [intros [X|[]]; discriminate|].
       intros (_ & _ & _ & G1 & G2 & _). apply orb_true_iff in G as [G|G]; apply Z.ltb_lt in G; lia.
+    + inv C. simpl in A. inv A. simpl. split; [intros [X|[]]; discriminate|]. intros (X & _). congruence.
     + apply orb_false_iff in G as [G1 G2]. apply Z.ltb_ge in G1, G2. inv C. simpl in A. simpl.
       rewrite (check_disp_iff _ _ _ _ sids A). rewrite can_dispatch_iff. unfold threshold, ids; simpl. rewrite map_app. simpl.
       fold (thr c (wcnt s + cnt) (wbytes s + bytes)). split.
@@ -297,7 +298,8 @@ Proof.
       + inv A. destruct (bs_ph _ _ _ _ _ BS eq_refl) as (P1 & _). intros X. apply can_dispatch_iff in X as (_ & X & _). congruence. }
   destruct e; try (apply BE; reflexivity).
   - destruct (NS ltac:(intros ? X; discriminate X)) as (s1 & o1 & ep & o2 & C & A & ->). cbn [core] in C.
-    destruct ((cnt <? 1) || (bytes <? 0)).
+    destruct ((cnt <? 1) || (bytes <? 0)); [|destruct (stopping_dec s) as [SG|SG]; rewrite SG in C].
+    + inv C. simpl in A. inv A. eapply rest_ok_same; eauto; reflexivity.
     + inv C. simpl in A. inv A. eapply rest_ok_same; eauto; reflexivity.
     + inv C. eapply epi_rest_ok; [left; reflexivity|right; reflexivity|exact A].
   - destruct (NS ltac:(intros ? X; discriminate X)) as (s1 & o1 & ep & o2 & C & A & ->). cbn [core] in C.
@@ -562,7 +564,8 @@ Proof.
         unfold pool. rewrite K1. apply incl_app; [apply incl_appl, ids_incl; auto|apply incl_appr, incl_refl]. }
   destruct e; try (apply BE; reflexivity).
   - destruct (NS ltac:(intros ? X; discriminate X)) as (s1 & o1 & ep & o2 & C & A & ->). cbn [core] in C.
-    destruct ((cnt <? 1) || (bytes <? 0)) eqn:G.
+    destruct ((cnt <? 1) || (bytes <? 0)) eqn:G; [|destruct (stopping_dec s) as [SG|SG]; rewrite SG in C].
+    + inv C. simpl in A. inv A. split; [apply incl_appl, incl_refl|apply wire_in_outcomes; repeat constructor].
     + inv C. simpl in A. inv A. split; [apply incl_appl, incl_refl|apply wire_in_outcomes; repeat constructor].
     + apply orb_false_iff in G as [G1 G2]. apply Z.ltb_ge in G1, G2. inv C.
       match type of A with apply_epi _ ?st _ = _ => assert (W1 : WInv st) by (apply inv_send; auto) end.
@@ -685,7 +688,7 @@ Proof.
     destruct (bs_keeps _ _ _ _ _ BS) as [K1 _ _ _ _ _]. rewrite K1; auto. }
   destruct e; try (apply BE; reflexivity).
   - destruct (NS ltac:(intros ? X; discriminate X)) as (s1 & o1 & ep & o2 & C & A & E). cbn [core] in C. left.
-    eapply G; eauto. destruct ((cnt <? 1) || (bytes <? 0)); inv C; simpl; auto.
+    eapply G; eauto. destruct ((cnt <? 1) || (bytes <? 0)); [|destruct (stopping s)]; inv C; simpl; auto.
     unfold ids. rewrite map_app. apply in_or_app; auto.
   - destruct (NS ltac:(intros ? X; discriminate X)) as (s1 & o1 & ep & o2 & C & A & E). cbn [core] in C. left.
     eapply G; eauto. inv C; auto.
@@ -722,10 +725,7 @@ Proof.
     - exfalso; auto. }
   destruct e; try (apply BE; reflexivity).
   - destruct (NS ltac:(intros ? X; discriminate X)) as (s1 & o1 & ep & o2 & C & A & ->). cbn [core] in C.
-    destruct ((cnt <? 1) || (bytes <? 0)); inv C; simpl in A.
-    + inv A. split; auto. repeat constructor.
-    + match type of A with check_send_batch _ ?st = _ => destruct (stopping_no_dispatch c st St) as [_ X] end.
-      rewrite X in A. inv A. split; simpl; [auto|try constructor; auto].
+    rewrite St in C. destruct ((cnt <? 1) || (bytes <? 0)); inv C; simpl in A; inv A; split; auto; repeat constructor.
   - destruct (NS ltac:(intros ? X; discriminate X)) as (s1 & o1 & ep & o2 & C & A & ->). cbn [core] in C.
     inv C. simpl in A. inv A. split; auto. repeat constructor.
   - destruct (NS ltac:(intros ? X; discriminate X)) as (s1 & o1 & ep & o2 & C & A & ->). cbn [core] in C.
@@ -834,3 +834,58 @@ Theorem stop_all : forall c s cv s' out, Inv s -> step c s (EStop cv) = (s', out
   stopping s' = true /\ looper s' = false /\ ph s' = Idle /\
   queue s' = [] /\ wcnt s' = 0 /\ wbytes s' = 0 /\ Forall stop_out out.
 Proof. intros c s cv s' out I H. destruct (stop_step_spec _ _ _ _ _ I H) as [A B (C1 & C2 & C3) (D1 & D2 & D3) E]. repeat split; auto. Qed.
+
+(* ------------------------------------------------------------------ a stopping producer refuses sends (producer.py:241-243) *)
+Theorem send_refused : forall c s t ch cnt b s' out, stopping s = true -> step c s (ESend t ch cnt b) = (s', out) ->
+  s' = set_ids s (nsend s + 1) (nload s) (ntimer s) /\
+  exists k, out = [OOutcome (nsend s) (OFail k 0)] /\
+            ((1 <= cnt /\ 0 <= b /\ k = K_CANCEL) \/ ((cnt < 1 \/ b < 0) /\ k = K_VALUE)).
+Proof.
+  intros c s t ch cnt b s' out St H. unfold step in H. cbn [core] in H. rewrite St in H.
+  destruct ((cnt <? 1) || (b <? 0)) eqn:G; simpl in H; inv H; split; auto; eexists; split; try reflexivity.
+  - right. split; auto. apply orb_true_iff in G as [G|G]; apply Z.ltb_lt in G; lia.
+  - left. apply orb_false_iff in G as [G1 G2]. apply Z.ltb_ge in G1, G2. auto.
+Qed.
+
+(* the state stop() leaves behind *)
+Definition stopped (s : state) : Prop :=
+  stopping s = true /\ looper s = false /\ ph s = Idle /\ queue s = [] /\ outstanding s = [] /\ wcnt s = 0 /\ wbytes s = 0.
+
+Lemma stop_gives_stopped : forall c s cv s' out, Inv s -> step c s (EStop cv) = (s', out) -> stopped s'.
+Proof.
+  intros c s cv s' out I H. destruct (stop_step_spec _ _ _ _ _ I H) as [A _ (B1 & B2 & B3) (C1 & C2 & C3) _].
+  repeat split; auto.
+Qed.
+
+(* what a step of a stopped producer can emit: nothing, or the refusal of the send just made *)
+Definition refusal (s : state) (e : event) (out : list output) : Prop :=
+  out = [] \/ (exists k, out = [OOutcome (nsend s) (OFail k 0)] /\ match e with ESend _ _ _ _ | EBadSend _ => True | _ => False end).
+
+Theorem stopped_step : forall c s e s' out, stopped s -> step c s e = (s', out) -> stopped s' /\ refusal s e out.
+Proof.
+  intros c s e s' out (St & Lp & Ph & Q & O & Wc & Wb) H.
+  destruct e; unfold step in H; cbn [core] in H; rewrite ?St, ?Ph, ?Lp in H.
+  - destruct ((cnt <? 1) || (bytes <? 0)); simpl in H; inv H; (split; [repeat split; auto|right; eexists; split; [reflexivity|exact I]]).
+  - simpl in H. inv H. split; [repeat split; auto|right; eexists; split; [reflexivity|exact I]].
+  - unfold cancel_send in H. rewrite O in H. simpl in H. inv H. split; [repeat split; auto|left; reflexivity].
+  - simpl in H. inv H. split; [repeat split; auto|left; reflexivity].
+  - simpl in H. inv H. split; [repeat split; auto|left; reflexivity].
+  - simpl in H. inv H. split; [repeat split; auto|left; reflexivity].
+  - simpl in H. inv H. split; [repeat split; auto|left; reflexivity].
+  - simpl in H. inv H. split; [repeat split; auto|left; reflexivity].
+  - simpl in H. inv H. split; [repeat split; auto|left; reflexivity].
+  - simpl in H. inv H. split; [repeat split; auto|left; reflexivity].
+  - unfold cancel_batch in H. simpl in H. rewrite Ph in H. simpl in H. rewrite O in H. simpl in H. inv H.
+    split; [repeat split; auto|left; reflexivity].
+Qed.
+
+Theorem stopped_run : forall c evs s s' tr, stopped s -> run c s evs = (s', tr) ->
+  stopped s' /\ forall e out, In (e, out) tr -> out = [] \/ exists sid k, out = [OOutcome sid (OFail k 0)] /\
+                                                   match e with ESend _ _ _ _ | EBadSend _ => True | _ => False end.
+Proof.
+  induction evs as [|e r IH]; simpl; intros s s' tr S H.
+  - inv H. split; auto. intros ? ? [].
+  - destruct (step c s e) as [s1 o1] eqn:E. destruct (run c s1 r) as [s2 t2] eqn:E2. inv H.
+    destruct (stopped_step _ _ _ _ _ S E) as [S1 R1]. destruct (IH _ _ _ S1 E2) as [S2 F2]. split; auto.
+    intros e0 out [X|X]; [inv X|eauto]. destruct R1 as [->|(k & -> & M)]; [left; auto|right; eauto].
+Qed.
